@@ -371,27 +371,28 @@ func (p *Persister) flushNow(ctx context.Context, batch map[string]persistData, 
 
 	tx, ctx, err := p.db.NewTransaction(ctx, true)
 	if err != nil {
-		// TODO make sure error is propagated back to the runtime and Conduit shuts down
+		// Nothing can be written. Fall through so the callbacks learn about the
+		// failure and this flush generation completes, otherwise
+		// WaitPendingWrites blocks forever on st.callbacksDone.
 		p.logger.Err(ctx, err).Msg("error creating new transaction")
-		return
-	}
-
-	defer tx.Discard()
-	for id, data := range batch {
-		storeErr := data.storeFunc(ctx)
-		if storeErr != nil {
-			p.logger.Err(ctx, storeErr).
-				Str(log.ConnectorIDField, id).
-				Msg("error while saving connector")
-			if err == nil {
-				// remember the first failure: the transaction must not be
-				// committed and the callbacks must learn about it
-				err = cerrors.Errorf("error while saving connector %s: %w", id, storeErr)
+	} else {
+		defer tx.Discard()
+		for id, data := range batch {
+			storeErr := data.storeFunc(ctx)
+			if storeErr != nil {
+				p.logger.Err(ctx, storeErr).
+					Str(log.ConnectorIDField, id).
+					Msg("error while saving connector")
+				if err == nil {
+					// remember the first failure: the transaction must not be
+					// committed and the callbacks must learn about it
+					err = cerrors.Errorf("error while saving connector %s: %w", id, storeErr)
+				}
 			}
 		}
-	}
-	if err == nil {
-		err = tx.Commit()
+		if err == nil {
+			err = tx.Commit()
+		}
 	}
 	// Track every callback this flush spawns so WaitPendingWrites can observe
 	// not just "the write landed" but "every side effect the write's callback
